@@ -9,6 +9,10 @@ HOOK_COMMITS = []
 NOT_APPLICABLE = {("C%02d" % i): "check not built yet in this round; see DESIGN.md section 6 for the plan" for i in range(1, 21)}
 
 PROPS = {
+    "C20": {"level": "exploration",
+            "level_text": "Exhaustive over all item sequences of length <= 4 over the 13 item kinds and over all version histories of <= 4 objects with runs of 1..4, seeded longer sequences; every sequence is dispatched through nine apply()/apply_item() forms with up to six handlers and compared with an ordered call-log model.",
+            "level_note": "Trusted: the harness's call-log model of the documented dispatch rules. Handler combinations are a fixed battery (C++ template instantiations), not generated. A lambda taking const memory::Item& is never invoked by the wrapper (hidden by its catch-all overload); this is recorded as an observation in DESIGN.md and not asserted.",
+            "technique": "exhaustive enumeration of short sequences + model-based oracle (expected ordered call log)"},
     "C16": {"level": "exploration",
             "level_text": "Exhaustive over the boundary grid the property names: all 864^3 triples per comparator and timestamp regime (via full comparison matrices and bitset closure), all id pairs over 21 boundary ids, all streams of length <= 4 over 30 objects for the order checker; seeded subsets for sort/unique. Each compared with a lexicographic reference key using an __int128 id rank.",
             "level_note": "Trusted: the harness's reference key (type rank, id rank 0 < negatives by |id| < positives, version, timestamp). Objects with mixed set/unset timestamps are outside the property and not generated. INT64_MIN is excluded for objects (std::abs) but included for id_order.",
@@ -34,6 +38,8 @@ PROPS = {
 }
 
 UNITS = [
+    {"name": "c20_enum", "props": ["C20"], "kind": "enum", "src": "harness/c20_enum.cpp", "flags": "-O1", "libs": LIBS_IO,
+     "quick": {"min_evaluations": 40000}, "thorough": {"min_evaluations": 300000, "case_timeout": 900}},
     {"name": "c16_enum", "props": ["C16"], "kind": "enum", "src": "harness/c16_enum.cpp", "flags": "-O2",
      "quick": {"min_evaluations": 800000}, "thorough": {"min_evaluations": 1200000, "case_timeout": 900}},
     {"name": "c18_enum", "props": ["C18"], "kind": "enum", "src": "harness/c18_enum.cpp", "flags": "-O2",
